@@ -187,6 +187,17 @@ CHECKS = {
          'own Indentator / Obfuscator. All histories of length<=2 (thorough 3) over a reduced alphabet + random histories of 50-200 steps.',
     note=TRUSTED + 'goldens come from fresh printers in the same process; behaviour of a generator after it raised is not demanded.',
     design='DESIGN.md section 3, C14'),
+ 'C15': dict(
+    technique='history monitor + interleaving stressor: every result compared with a golden from a fresh process; thread pools under a switch-interval sweep and sys.monitoring LINE yield injection with call/return stamps from one atomic counter; fingerprints of shared objects around every phase',
+    level='exploration',
+    text='Goldens: one fresh subprocess per (text, capture flag) over 36 valid / invalid / lexically nasty texts. Sequential: every ordered '
+         'pair (thorough: triples over 14 texts) and random 200-call histories in one process. Concurrent: 8-16 threads drawing from 12 '
+         'operations under switch intervals 5e-3, 1e-4, 1e-5, 1e-6 and under LINE yield injection (p=0.02 per line in calmjs/ply files); each '
+         'result (reflective fingerprint incl. positions, or exception type + message) must equal its golden; the number of truly overlapping '
+         'operation pairs is measured from the stamps; the table modules, Lexer class attributes, the asttypes factory table and module '
+         'globals are fingerprinted before and after each phase. Schedules are stressed, not enumerated.',
+    note=TRUSTED + 'the GIL scheduler of CPython 3.12; evidence reports overlapping pairs and injected yields actually observed.',
+    design='DESIGN.md section 3, C15'),
 }
 
 PENDING = 'monitor planned in DESIGN.md section 3 but not built yet in this round; no claim is made'
